@@ -965,9 +965,17 @@ orc_x86_compile (OrcCompiler *compiler)
     if (emit_region1) {
       int save_loop_shift;
       int l;
+      int i;
 
       save_loop_shift = compiler->loop_shift;
       compiler->vars[align_var].is_aligned = FALSE;
+      /* the head region moves every array by the number of elements that
+       * aligns the alignment variable: from here on nothing is known about
+       * the alignment of the others, whatever was declared for them */
+      for (i = ORC_VAR_D1; i <= ORC_VAR_S8; i++) {
+        if (i != align_var)
+          compiler->vars[i].is_aligned = FALSE;
+      }
 
       for (l = 0; l < save_loop_shift; l++) {
         compiler->loop_shift = l;
